@@ -1,9 +1,10 @@
 import SlipVerif.Model.Lambda
 import SlipVerif.Lemmas.Lambda
+import SlipVerif.Lemmas.LambdaParse
 /- C04 — arguments are bound per the lambda list; arity errors match the documentation.
    Theorems about `SlipVerif.Lambda.bind` / `arity` (the definitions the slipmodel driver runs). -/
 namespace SlipVerif.Theorems.C04
-open SlipVerif.Lambda SlipVerif.Lemmas.Lambda
+open SlipVerif.Lambda SlipVerif.Lemmas.Lambda SlipVerif.Lemmas.LambdaParse
 
 deriving instance DecidableEq for Except
 
@@ -462,5 +463,26 @@ theorem docConsistent_sound (names : List String) (min : Nat) (max : Option Nat)
     decide_eq_true_eq] at hc
   rw [bind_ok_iff, hc, ← countOK_iff_inArity]
   simp [hkey]
+
+/-! ### the parser -/
+
+/-- **parseLL_render** — `parseLL` is the inverse of writing a lambda list out: every well-formed
+    lambda list (required, &optional with/without defaults, &rest, &key with/without defaults,
+    &allow-other-keys, &aux, in that order) is recovered exactly from its text. -/
+theorem parseLL_render (ll : LL) (h : WF ll) : parseLL (Obj.ofList (render ll)) = .ok ll := by
+  simp only [parseLL, toList?_ofList, parseElems_render ll h]
+
+example : WF { req := ["a"], opt := [{ name := "b", default := .int 5 }], rest := some "r", hasKey := true,
+               keys := [{ name := "k" }], aok := true, aux := [{ name := "x" }] } := by
+  constructor <;> simp [isMarker]
+
+/-- binding through the parser: a call of the written-out lambda list is judged by `bind_ok_iff` -/
+theorem parse_then_bind_ok_iff (ll : LL) (h : WF ll) (as : List Obj) :
+    (∃ ll' b, parseLL (Obj.ofList (render ll)) = .ok ll' ∧ bind ll' as = .ok b) ↔
+      CountOK ll as.length ∧ (ll.hasKey = true → KeyTailOK ll (as.drop ll.npos)) := by
+  rw [parseLL_render ll h, ← bind_ok_iff]
+  constructor
+  · rintro ⟨ll', b, hl, hb⟩; cases hl; exact ⟨b, hb⟩
+  · rintro ⟨b, hb⟩; exact ⟨ll, b, rfl, hb⟩
 
 end SlipVerif.Theorems.C04
